@@ -72,6 +72,7 @@ fn main() {
         std::process::exit(do_replay(&prop, &file));
     }
     let t0 = Instant::now();
+    props::common::THOROUGH.store(tier == Tier::Thorough, std::sync::atomic::Ordering::Relaxed);
     let plan = match props::plan(&prop, tier) {
         Some(p) => p,
         None => {
